@@ -866,6 +866,16 @@ pub fn run_c16(tier: &str, seed: u64, shard: usize, of: usize, results_path: Opt
             let mut first: Option<(Option<String>, Option<i16>, u64)> = None;
             let first_index = searches_done;
             for rep in 0..(if thorough { 3 } else { 2 }) {
+                if rep >= 1 {
+                    // in between, a search that is cut short (node budget, as in every game move):
+                    // whatever it leaves behind outside the cache must not reach the next search
+                    let mut crng = Rng::derive(seed, 0xC16_C07 + job as u64 * 4 + rep as u64);
+                    let budget = 1 + crng.below(3_000);
+                    clear_tt();
+                    let _ = engine_search(&b, Some(SearchLimits::new().nodes(Some(budget))), Some(depth.saturating_add(2)));
+                    searches_done += 1;
+                    out::count("C16.cut_short_searches_before_a_repeat", 1);
+                }
                 clear_tt();
                 let r = engine_search(&b, None, Some(depth));
                 searches_done += 1;
